@@ -1,0 +1,197 @@
+//go:build verif
+
+package main
+
+// Verification driver for the PROGRAM (built only with -tags verif): runs the
+// loop main() runs - runTerminal - over a pseudo terminal with a real
+// session, feeds it byte streams and records which databases exist afterwards
+// (the statements of the streams are CREATE DATABASE statements: what reaches
+// the engine is visible in the data directory).
+// Input file (VERIF_CONSOLE_MAIN_IN): one hex-encoded byte stream per line.
+// Output file (VERIF_CONSOLE_MAIN_OUT): per input line "begin",
+// "dbs <name>...", "returned <how>", "end".
+
+import (
+	"bufio"
+	"encoding/hex"
+	"fmt"
+	"os"
+	"sort"
+	"strings"
+	"syscall"
+	"testing"
+	"time"
+	"unsafe"
+
+	"github.com/mk6i/mkdb/engine"
+	"github.com/mk6i/mkdb/storage"
+)
+
+func verifOpenPty() (master, slave *os.File, err error) {
+	m, err := os.OpenFile("/dev/ptmx", os.O_RDWR, 0)
+	if err != nil {
+		return nil, nil, err
+	}
+	var unlock int32
+	if _, _, e := syscall.Syscall(syscall.SYS_IOCTL, m.Fd(), syscall.TIOCSPTLCK, uintptr(unsafe.Pointer(&unlock))); e != 0 {
+		m.Close()
+		return nil, nil, e
+	}
+	var n uint32
+	if _, _, e := syscall.Syscall(syscall.SYS_IOCTL, m.Fd(), syscall.TIOCGPTN, uintptr(unsafe.Pointer(&n))); e != 0 {
+		m.Close()
+		return nil, nil, e
+	}
+	s, err := os.OpenFile(fmt.Sprintf("/dev/pts/%d", n), os.O_RDWR|syscall.O_NOCTTY, 0)
+	if err != nil {
+		m.Close()
+		return nil, nil, err
+	}
+	return m, s, nil
+}
+
+func verifIsRaw(f *os.File) bool {
+	var tio syscall.Termios
+	if _, _, e := syscall.Syscall(syscall.SYS_IOCTL, f.Fd(), syscall.TCGETS, uintptr(unsafe.Pointer(&tio))); e != 0 {
+		return false
+	}
+	return tio.Lflag&syscall.ICANON == 0
+}
+
+// verifRunMain runs runTerminal on one byte stream in a fresh data directory.
+func verifRunMain(raw []byte) (dbs []string, how string) {
+	dir, err := os.MkdirTemp("", "verif-console-main")
+	if err != nil {
+		return nil, "setup:" + err.Error()
+	}
+	defer os.RemoveAll(dir)
+	old, _ := os.Getwd()
+	if err := os.Chdir(dir); err != nil {
+		return nil, "setup:" + err.Error()
+	}
+	defer os.Chdir(old)
+	if err := storage.InitStorage(); err != nil {
+		return nil, "setup:" + err.Error()
+	}
+	master, slave, err := verifOpenPty()
+	if err != nil {
+		return nil, "nopty"
+	}
+	defer master.Close()
+	defer slave.Close()
+	// runTerminal reads os.Stdin and switches fd 0 to raw mode; what it prints goes to fd 1
+	saved0, err0 := syscall.Dup(0)
+	saved1, err1 := syscall.Dup(1)
+	if err0 != nil || err1 != nil {
+		return nil, "setup:dup"
+	}
+	syscall.Dup2(int(slave.Fd()), 0)
+	syscall.Dup2(int(slave.Fd()), 1)
+	defer func() {
+		syscall.Dup2(saved0, 0)
+		syscall.Dup2(saved1, 1)
+		syscall.Close(saved0)
+		syscall.Close(saved1)
+	}()
+	// what the console prints must be drained, or it blocks on a full pty buffer
+	go func() {
+		buf := make([]byte, 4096)
+		for {
+			if _, err := master.Read(buf); err != nil {
+				return
+			}
+		}
+	}()
+	sess := &engine.Session{}
+	done := make(chan error, 1)
+	go func() { done <- runTerminal(sess) }()
+	for i := 0; i < 300 && !verifIsRaw(slave); i++ {
+		time.Sleep(10 * time.Millisecond)
+	}
+	if !verifIsRaw(slave) {
+		return nil, "notraw"
+	}
+	how = ""
+	write := func(b []byte) bool {
+		for len(b) > 0 {
+			n := 64
+			if n > len(b) {
+				n = len(b)
+			}
+			if _, err := master.Write(b[:n]); err != nil {
+				return false
+			}
+			b = b[n:]
+			select {
+			case err := <-done:
+				how = fmt.Sprintf("early:%v", err)
+				return false
+			case <-time.After(2 * time.Millisecond):
+			}
+		}
+		return true
+	}
+	if write(raw) {
+		// ^D on the empty line ends the console
+		time.Sleep(50 * time.Millisecond)
+		master.Write([]byte{4})
+	}
+	if how == "" {
+		select {
+		case err := <-done:
+			if err == nil {
+				how = "ok"
+			} else {
+				how = fmt.Sprintf("err:%v", err)
+			}
+		case <-time.After(5 * time.Second):
+			how = "timeout"
+		}
+	}
+	hxCatch := func(f func()) {
+		defer func() { recover() }()
+		f()
+	}
+	hxCatch(func() { sess.Close() })
+	ents, _ := os.ReadDir("data")
+	for _, e := range ents {
+		if e.IsDir() {
+			dbs = append(dbs, e.Name())
+		}
+	}
+	sort.Strings(dbs)
+	return dbs, strings.ReplaceAll(how, " ", "_")
+}
+
+func TestVerifConsoleMainDriver(t *testing.T) {
+	in, out := os.Getenv("VERIF_CONSOLE_MAIN_IN"), os.Getenv("VERIF_CONSOLE_MAIN_OUT")
+	if in == "" || out == "" {
+		t.Skip("no driver input")
+	}
+	fin, err := os.Open(in)
+	if err != nil {
+		t.Fatal(err)
+	}
+	defer fin.Close()
+	fout, err := os.Create(out)
+	if err != nil {
+		t.Fatal(err)
+	}
+	defer fout.Close()
+	w := bufio.NewWriter(fout)
+	defer w.Flush()
+	sc := bufio.NewScanner(fin)
+	sc.Buffer(make([]byte, 1<<20), 1<<26)
+	for sc.Scan() {
+		raw, err := hex.DecodeString(strings.TrimSpace(sc.Text()))
+		if err != nil {
+			t.Fatal(err)
+		}
+		dbs, how := verifRunMain(raw)
+		fmt.Fprintln(w, "begin")
+		fmt.Fprintln(w, strings.TrimSpace("dbs "+strings.Join(dbs, " ")))
+		fmt.Fprintln(w, "returned "+how)
+		fmt.Fprintln(w, "end")
+		w.Flush()
+	}
+}
